@@ -264,6 +264,20 @@ func sxgMut(args []string) error {
 				}
 				x.SignatureHeaderValue = sig[:j0+3] + string(nc) + sig[j0+4:]
 			})
+			// a decoy member whose window covers the verification instant next to the genuine member whose window does not:
+			// the window that counts is the one of the member whose signature verifies
+			for _, off := range []int64{5000, -5000} {
+				t2 := sp.expires + off
+				if off < 0 {
+					t2 = sp.date + off
+				}
+				decoy := strings.Replace(strings.Replace(sig, fmt.Sprintf("date=%d", sp.date), fmt.Sprintf("date=%d", t2-10), 1), fmt.Sprintf("expires=%d", sp.expires), fmt.Sprintf("expires=%d", t2+10), 1)
+				for _, hv := range []string{decoy + ", " + sig, sig + ", " + decoy, strings.Replace(decoy, "label;", "other;", 1) + ", " + sig} {
+					x := cloneEx(e)
+					x.SignatureHeaderValue = hv
+					ctx.emitVer(x, kc, t2, 0, signed, false, nil, false, false, "decoy member current, genuine member not")
+				}
+			}
 			mem("two items, junk first", func(x *sxg.Exchange) { x.SignatureHeaderValue = "junk;sig=*AAAA*, " + sig })
 			mem("two items, honest first", func(x *sxg.Exchange) { x.SignatureHeaderValue = sig + ", junk;sig=*AAAA*" })
 			// attacker re-signs modified content with their own key and certificate
